@@ -70,6 +70,9 @@ type c16Opt struct {
 	Handlers []int      `json:"handlers"`
 	Paths    [][]string `json:"paths"`
 	ViaKey   bool       `json:"viaKey,omitempty"` // build single-key paths with DesignateNode
+	// Spare: unused cells behind the values in the slice handed to WithLambdaOption, which keeps
+	// the caller's slice (cap = len + spare); only for the lambda option types (c16_slices.go)
+	Spare int `json:"spare,omitempty"`
 }
 
 type c16Call struct {
@@ -91,6 +94,7 @@ type c16BuildOp struct {
 	Src      int        `json:"src"`
 	Paths    [][]string `json:"paths"`
 	ViaKey   bool       `json:"viaKey,omitempty"`
+	Spare    int        `json:"spare,omitempty"` // base: see c16Opt.Spare; a derived Option shares the base's array
 }
 
 type c16Case struct {
@@ -123,6 +127,7 @@ type c16Result struct {
 type c16Out struct {
 	Results []c16Result `json:"results"`
 	Store   []c16Opt    `json:"store"`
+	Arrays  [][]int     `json:"arrays"` // per Option of the store: cells [0, cap) of its value array after the calls
 }
 
 // ---------------------------------------------------------------------------------------
@@ -449,7 +454,15 @@ func c16Compile(call *c16Call) (compose.Runnable[any, any], error) {
 }
 
 func c16BuildOption(o *c16Opt) compose.Option {
+	opt, _ := c16BuildOptionB(o)
+	return opt
+}
+
+// c16BuildOptionB also returns the whole backing array (all cap cells) of the value slice when
+// the caller keeps it (lambda option types: WithLambdaOption stores the slice it is handed).
+func c16BuildOptionB(o *c16Opt) (compose.Option, []any) {
 	var opt compose.Option
+	var backing []any
 	switch {
 	case len(o.Vals) > 0:
 		switch o.Ty {
@@ -466,7 +479,12 @@ func c16BuildOption(o *c16Opt) compose.Option {
 			}
 			opt = compose.WithRetrieverOption(vs...)
 		default:
-			vs := make([]any, 0, len(o.Vals))
+			spare := o.Spare
+			if spare < 0 {
+				spare = 0
+			}
+			vs := make([]any, 0, len(o.Vals)+spare)
+			backing = vs[:cap(vs)]
 			for _, v := range o.Vals {
 				id := v
 				switch o.Ty {
@@ -494,9 +512,9 @@ func c16BuildOption(o *c16Opt) compose.Option {
 		opt = compose.Option{}
 	}
 	if len(o.Paths) == 0 {
-		return opt
+		return opt, backing
 	}
-	return c16Designate(opt, o.Paths, o.ViaKey)
+	return c16Designate(opt, o.Paths, o.ViaKey), backing
 }
 
 // c16Designate derives an Option from opt through the public API.
@@ -522,17 +540,21 @@ func c16Designate(opt compose.Option, paths [][]string, viaKey bool) compose.Opt
 }
 
 // c16BuildStore runs the construction sequence on the real API.
-func c16BuildStore(ops []c16BuildOp) []compose.Option {
+func c16BuildStore(ops []c16BuildOp) ([]compose.Option, [][]any) {
 	store := make([]compose.Option, 0, len(ops))
+	backing := make([][]any, 0, len(ops))
 	for i := range ops {
 		op := &ops[i]
 		if op.Op == "designate" && op.Src >= 0 && op.Src < len(store) {
 			store = append(store, c16Designate(store[op.Src], op.Paths, op.ViaKey))
+			backing = append(backing, backing[op.Src]) // the derived Option shares the array
 			continue
 		}
-		store = append(store, c16BuildOption(&c16Opt{Ty: op.Ty, Vals: op.Vals, Handlers: op.Handlers}))
+		o, b := c16BuildOptionB(&c16Opt{Ty: op.Ty, Vals: op.Vals, Handlers: op.Handlers, Spare: op.Spare})
+		store = append(store, o)
+		backing = append(backing, b)
 	}
-	return store
+	return store, backing
 }
 
 // c16SyncStore recomputes the specification view of a constructed store: attributes of the
@@ -546,7 +568,7 @@ func c16SyncStore(c *c16Case) {
 		op := &c.Build[i]
 		if op.Op == "designate" && op.Src >= 0 && op.Src < len(st) {
 			b := st[op.Src]
-			o := c16Opt{Ty: b.Ty, Vals: append([]int{}, b.Vals...), Handlers: append([]int{}, b.Handlers...), Paths: [][]string{}}
+			o := c16Opt{Ty: b.Ty, Vals: append([]int{}, b.Vals...), Handlers: append([]int{}, b.Handlers...), Paths: [][]string{}, Spare: b.Spare}
 			for _, p := range b.Paths {
 				o.Paths = append(o.Paths, append([]string{}, p...))
 			}
@@ -556,7 +578,7 @@ func c16SyncStore(c *c16Case) {
 			st = append(st, o)
 			continue
 		}
-		st = append(st, c16Opt{Ty: op.Ty, Vals: append([]int{}, op.Vals...), Handlers: append([]int{}, op.Handlers...), Paths: [][]string{}})
+		st = append(st, c16Opt{Ty: op.Ty, Vals: append([]int{}, op.Vals...), Handlers: append([]int{}, op.Handlers...), Paths: [][]string{}, Spare: op.Spare})
 	}
 	c.Store = st
 }
@@ -705,14 +727,16 @@ func c16Snapshot(opts []compose.Option) []c16Opt {
 // c16RunImpl builds the shared Option values once, runs the calls (in sequence, or all at
 // once from goroutines released by one barrier) and reports per call what was observed, plus
 // the Option values as the caller sees them afterwards.
-func c16RunImpl(c *c16Case) (results []c16Result, built []c16Opt, storeChanged string, buildErr string) {
+func c16RunImpl(c *c16Case) (results []c16Result, built []c16Opt, storeChanged string, buildErr string, arrays [][]int) {
 	var store []compose.Option
+	var backing [][]any
 	if len(c.Build) > 0 {
-		store = c16BuildStore(c.Build)
+		store, backing = c16BuildStore(c.Build)
 	} else {
 		store = make([]compose.Option, len(c.Store))
+		backing = make([][]any, len(c.Store))
 		for i := range c.Store {
-			store[i] = c16BuildOption(&c.Store[i])
+			store[i], backing[i] = c16BuildOptionB(&c.Store[i])
 		}
 	}
 	before := c16Snapshot(store)
@@ -731,10 +755,10 @@ func c16RunImpl(c *c16Case) (results []c16Result, built []c16Opt, storeChanged s
 		var r compose.Runnable[any, any]
 		var err error
 		if panicked, pv := vh.Safely(func() { r, err = c16Compile(&c.Calls[i]) }); panicked {
-			return nil, nil, "", fmt.Sprint("compile-panic:", pv)
+			return nil, nil, "", fmt.Sprint("compile-panic:", pv), nil
 		}
 		if err != nil {
-			return nil, nil, "", "compile-error:" + err.Error()
+			return nil, nil, "", "compile-error:" + err.Error(), nil
 		}
 		cache[string(k)] = r
 		runs[i] = r
@@ -788,7 +812,7 @@ func c16RunImpl(c *c16Case) (results []c16Result, built []c16Opt, storeChanged s
 	if !vh.CanonEq(before, after) {
 		storeChanged = fmt.Sprintf("before=%s after=%s", vh.Canon(before), vh.Canon(after))
 	}
-	return results, built, storeChanged, ""
+	return results, built, storeChanged, "", c16Cells(backing)
 }
 
 // c16Strip drops the free-text note (error message) before comparing results.
@@ -955,7 +979,7 @@ func c16Eval(ctx *vh.Ctx, c *c16Case) (agree bool, model *c16Out, err error) {
 	if err != nil {
 		return false, nil, err
 	}
-	impl, built, storeChanged, buildErr := c16RunImpl(c)
+	impl, built, storeChanged, buildErr, arrays := c16RunImpl(c)
 	if buildErr != "" {
 		ctx.Res.Disagree(vh.Disagreement{Signature: "C16:build:" + strings.SplitN(buildErr, ":", 2)[0], What: "the generated graph did not compile: " + buildErr, Case: c})
 		return false, model, nil
@@ -971,6 +995,10 @@ func c16Eval(ctx *vh.Ctx, c *c16Case) (agree bool, model *c16Out, err error) {
 	}
 	if storeChanged != "" {
 		ctx.Res.Disagree(vh.Disagreement{Signature: "C16:caller-option-mutated", What: "Option values held by the caller changed during the calls: " + storeChanged, Case: c})
+		agree = false
+	}
+	// the caller's own value arrays (elements and spare cells) after the calls
+	if !c16CompareArrays(ctx, c, model, arrays) {
 		agree = false
 	}
 	// the model's view of the caller's store after the calls
@@ -1076,6 +1104,9 @@ func c16Stats(ctx *vh.Ctx, c *c16Case, agree bool) {
 			k += fmt.Sprintf("/designated-len%d", maxl)
 		}
 		ctx.Res.Dist("opt=" + k)
+		if len(o.Vals) > 0 && c16KeepsCallerSlice(o.Ty) {
+			ctx.Res.Dist(fmt.Sprintf("opt.spare=%d", o.Spare))
+		}
 	}
 	// lambdas with an interface option type: are there any, does an undesignated value option pass
 	// them, is a value option designated to one (top level / nested)
@@ -1157,6 +1188,9 @@ func c16ShapeKey(c *c16Case, model *c16Out) string {
 	for i := range c.Store {
 		o := &c.Store[i]
 		fmt.Fprintf(&sb, "|%d:%d:%d:", o.Ty, len(o.Vals), len(o.Handlers))
+		if o.Spare > 0 {
+			sb.WriteByte('+')
+		}
 		for _, p := range o.Paths {
 			fmt.Fprintf(&sb, "%s,", strings.Join(p, "/"))
 		}
@@ -1196,8 +1230,10 @@ func c16One(ctx *vh.Ctx, c *c16Case, shrink bool) error {
 		ctx.Res.Dist("agree=yes")
 	} else {
 		ctx.Res.Dist("agree=no")
+		ctx.Res.Dist("agree=no/stream=" + c.Kind)
 	}
 	c16Stats(ctx, c, agree)
+	c16SliceStats(ctx, c, model)
 	ctx.Res.Count(c16ShapeKey(c, model), nontrivial)
 	ctx.Res.Sample(c)
 	if agree {
@@ -1225,7 +1261,7 @@ func c16One(ctx *vh.Ctx, c *c16Case, shrink bool) error {
 }
 
 func runC16(ctx *vh.Ctx) error {
-	ctx.Res.Rule = "random chains of nested graphs (depth<=3; lambdas with 7 concrete option types incl. model.Option/retriever.Option, lambdas whose declared option type is an interface type (any, a small custom interface implemented by one of the concrete types), lambdas without option, fake ChatModel/Retriever components, passthrough nodes, reused keys across levels) x 0-5 Options (built in one step, or by sequences of DesignateNode/DesignateNodeWithPath calls deriving several Options from shared bases; undesignated / designated by DesignateNode or DesignateNodeWithPath with 1-3 paths; values or callbacks or empty; valid targets, wrong type, unknown node, path below component/passthrough, empty path) x nodes (lambdas, components, nested graphs) added with WithInputKey / WithOutputKey behind a predecessor that yields the map x Invoke/Stream/Collect/Transform x pregel/dag; single calls, sequences of calls and concurrent calls sharing the same Option values; non-trivial = some node receives a value or a handler, or the call is rejected; distinct by (tree shape with types and keys, option kinds and paths, call index sets, paradigm)"
+	ctx.Res.Rule = "random chains of nested graphs (depth<=3; lambdas with 7 concrete option types incl. model.Option/retriever.Option, lambdas whose declared option type is an interface type (any, a small custom interface implemented by one of the concrete types), lambdas without option, fake ChatModel/Retriever components, passthrough nodes, reused keys across levels) x 0-5 Options (built in one step, or by sequences of DesignateNode/DesignateNodeWithPath calls deriving several Options from shared bases; undesignated / designated by DesignateNode or DesignateNodeWithPath with 1-3 paths; values or callbacks or empty; valid targets, wrong type, unknown node, path below component/passthrough, empty path) x nodes (lambdas, components, nested graphs) added with WithInputKey / WithOutputKey behind a predecessor that yields the map x Invoke/Stream/Collect/Transform x pregel/dag; single calls, sequences of calls and concurrent calls sharing the same Option values; value lists of lambda Options with spare capacity (WithLambdaOption keeps the caller's slice) and Options derived from one base sharing its array, several Options addressing the same nodes (stream shared/*), the caller's arrays inspected cell by cell after the calls; non-trivial = some node receives a value or a handler, or the call is rejected; distinct by (tree shape with types and keys, option kinds and paths, call index sets, paradigm)"
 	if err := c16CheckTypeMenu(); err != nil {
 		return err
 	}
@@ -1245,9 +1281,11 @@ func runC16(ctx *vh.Ctx) error {
 	for i := 0; i < n && ctx.TimeLeft(); i++ {
 		var c *c16Case
 		switch w := ctx.Rng.Intn(100); {
-		case w < 20:
+		case w < 14:
+			c = c16GenShared(ctx.Rng)
+		case w < 32:
 			c = c16GenIface(ctx.Rng)
-		case w < 42:
+		case w < 52:
 			c = c16Gen(ctx.Rng, true)
 		default:
 			c = c16Gen(ctx.Rng, false)
